@@ -2332,6 +2332,78 @@ def match_method(I, m, name, args, kwargs):
     raise Unsupported('Match.%s' % name)
 
 
+_ctxfree = {}
+
+
+def context_free(pattern):
+    """REGEX-STRUCT fact: the pattern looks at nothing outside its own match - no anchors, no word
+    boundaries, no look-behind, no look-ahead (decided on the sre parse tree).  For such a pattern
+    `p.match(s, pos)` succeeds exactly when `p.match(s[pos:])` does, with every span shifted by pos."""
+    key = (pattern.pattern, pattern.flags)
+    if key in _ctxfree:
+        return _ctxfree[key]
+    import re._constants as C
+    import re._parser as P
+
+    def ok(items):
+        for op, av in items:
+            if op in (C.AT, C.ASSERT, C.ASSERT_NOT):
+                return False
+            if op is C.SUBPATTERN:
+                if not ok(av[3]):
+                    return False
+            elif op is C.BRANCH:
+                if not all(ok(b) for b in av[1]):
+                    return False
+            elif op in (C.MAX_REPEAT, C.MIN_REPEAT, getattr(C, 'POSSESSIVE_REPEAT', None)):
+                if not ok(av[2]):
+                    return False
+            elif op is getattr(C, 'ATOMIC_GROUP', None):
+                if not ok(av):
+                    return False
+            elif op is C.GROUPREF_EXISTS:
+                return False
+        return True
+    try:
+        r = ok(P.parse(pattern.pattern, pattern.flags))
+    except Exception:
+        r = False
+    _ctxfree[key] = r
+    return r
+
+
+def min_width(pattern):
+    """REGEX-STRUCT fact (sre's own width computation): every match is at least this long"""
+    import re._parser as P
+    try:
+        return int(P.parse(pattern.pattern, pattern.flags).getwidth()[0])
+    except Exception:
+        return 0
+
+
+def match_at(I, pat, s, pos):
+    """pattern.match(s, pos) for a context-free pattern: the match of the pattern on s[pos:], spans
+    shifted by pos (a position outside the string is clamped, as `re` does)"""
+    o = pat.obj if isinstance(pat, VConc) else pat
+    if o is None or not context_free(o):
+        raise Unsupported('Pattern.match with a start position (pattern looks outside its match)')
+    used('re.Pattern.match(s, pos) == match on s[pos:] shifted by pos (pattern without anchors / look-around)')
+    n = z3.Length(s)
+    p = z3.If(pos < 0, z3.IntVal(0), z3.If(pos > n, n, pos))
+    sub = z3.SubString(s, p, n - p)
+    m0 = new_match(I, sub, o, 'match')
+    I.assume(z3.Or(m0.nomatch, m0.start(0) == 0))
+    w = min_width(o)
+    if w > 0:
+        I.assume(z3.Or(m0.nomatch, m0.end(0) - m0.start(0) >= w))
+    st = lambda g: z3.If(m0.isnone(g), z3.IntVal(-1), m0.start(g) + p)     # noqa: E731
+    en = lambda g: z3.If(m0.isnone(g), z3.IntVal(-1), m0.end(g) + p)       # noqa: E731
+    m = VMatch(s, m0.ngroups, st, en, m0.isnone, dict(o.groupindex), 'match')
+    m.nomatch = m0.nomatch
+    m.is_bytes = m0.is_bytes
+    return VOpt(m0.nomatch, m)
+
+
 def pattern_method(I, pat, name, args, kwargs):
     used('re.Pattern.%s (abstract: result spans within the string; regex language trusted)' % name)
     if name in ('match', 'search', 'fullmatch'):
@@ -2340,6 +2412,8 @@ def pattern_method(I, pat, name, args, kwargs):
             # pattern.search(s, 0, endpos): "as if the string is endpos characters long"
             pos = z3.simplify(as_int(args[1]))
             if not (z3.is_int_value(pos) and pos.as_long() == 0):
+                if name == 'match' and len(args) == 2:
+                    return match_at(I, pat, s, pos)
                 raise Unsupported('Pattern.%s with a start position' % name)
             if len(args) > 2:
                 s = str_slice(s, VSlice(NONE, args[2], NONE))
